@@ -38,6 +38,9 @@ func getRetryerOfResource(resource string) *outlier.Retryer
 //go:linkname recyclerRecycle github.com/alibaba/sentinel-golang/core/outlier.(*Recycler).recycle
 func recyclerRecycle(r *outlier.Recycler, node string)
 
+//go:linkname retryerConnectNode github.com/alibaba/sentinel-golang/core/outlier.(*Retryer).connectNode
+func retryerConnectNode(r *outlier.Retryer, node string)
+
 //go:linkname retryerOnConnected github.com/alibaba/sentinel-golang/core/outlier.(*Retryer).onConnected
 func retryerOnConnected(r *outlier.Retryer, node string, rt uint64)
 
@@ -55,6 +58,7 @@ type Interp struct {
 	rules   map[string]*loaded // by op-level resource name
 	order   []string
 	cleared map[string]bool // resources whose rule was cleared (address-less probes are still allowed)
+	script  map[string]bool // scripted RecoveryCheckFunc results, by address
 	raw     bool
 }
 
@@ -78,6 +82,7 @@ func (it *Interp) Reset() {
 	stat.ResetResourceNodeMap()
 	it.rules = map[string]*loaded{}
 	it.cleared = map[string]bool{}
+	it.script = map[string]bool{}
 	it.order = nil
 	it.clk.SetMs(startMs)
 	settle()
@@ -155,7 +160,8 @@ func (it *Interp) load(t []string, perRes bool) string {
 		RecycleIntervalS:     0,    // default 10 min real time
 		MaxRecoveryAttempts:  3,
 		// a retry timer that fires after its case is over reports "recovered" and so ends its chain
-		RecoveryCheckFunc: func(string) bool { return curCase != gen },
+		// within the case the result is scripted by the `check` op (default: still down)
+		RecoveryCheckFunc: func(addr string) bool { return curCase != gen || it.script[addr] },
 	}
 	if perRes {
 		// outlier.LoadRuleOfResource: the per-resource path (an invalid rule is reported and the old one stays in force)
@@ -173,6 +179,18 @@ func (it *Interp) load(t []string, perRes bool) string {
 		return "ok"
 	}
 	if outlier.IsValidRule(r) != nil || circuitbreaker.IsValidRule(r.Rule) != nil {
+		// bulk load of a rule set whose rule for this resource is invalid: the rule is ignored, the resource is left without one
+		var all []*outlier.Rule
+		for _, n := range it.order {
+			if n != name {
+				all = append(all, it.rules[n].rule)
+			}
+		}
+		all = append(all, r)
+		if _, err := outlier.LoadRules(all); err != nil {
+			return "err"
+		}
+		it.forget(name)
 		return "invalid"
 	}
 	if _, ok := it.rules[name]; !ok {
@@ -189,10 +207,7 @@ func (it *Interp) load(t []string, perRes bool) string {
 	return "ok"
 }
 
-func (it *Interp) clear(name string) string {
-	if err := outlier.ClearRuleOfResource(it.rn(name)); err != nil {
-		return "err"
-	}
+func (it *Interp) forget(name string) {
 	if _, ok := it.rules[name]; ok {
 		delete(it.rules, name)
 		var o []string
@@ -202,7 +217,28 @@ func (it *Interp) clear(name string) string {
 			}
 		}
 		it.order = o
-		it.cleared[name] = true
+	}
+	it.cleared[name] = true
+}
+
+// clearres: outlier.ClearRuleOfResource
+func (it *Interp) clear(name string) string {
+	if err := outlier.ClearRuleOfResource(it.rn(name)); err != nil {
+		return "err"
+	}
+	it.forget(name)
+	return "ok"
+}
+
+// unload: bulk outlier.LoadRules of the case's rules without this resource
+func (it *Interp) unload(name string) string {
+	it.forget(name)
+	var all []*outlier.Rule
+	for _, n := range it.order {
+		all = append(all, it.rules[n].rule)
+	}
+	if _, err := outlier.LoadRules(all); err != nil {
+		return "err"
 	}
 	return "ok"
 }
@@ -290,6 +326,30 @@ func (it *Interp) Step(t []string, op string) string {
 		return it.load(t, true)
 	case "clearres":
 		return it.clear(t[1])
+	case "unload":
+		return it.unload(t[1])
+	case "rules":
+		var xs []string
+		for _, r := range outlier.GetRules() {
+			name := r.Resource
+			if i := strings.LastIndex(name, "#"); i >= 0 {
+				name = name[:i]
+			}
+			a := "0"
+			if r.EnableActiveRecovery {
+				a = "1"
+			}
+			xs = append(xs, name+":"+vh.FBits(r.MaxEjectionPercent)+":"+a)
+		}
+		return vh.SortedList(xs)
+	case "check":
+		// the retryer's timer callback with a scripted RecoveryCheckFunc result: connectNode -> onConnected / onDisconnected
+		res := it.rn(t[1])
+		it.script[t[2]] = t[3] == "ok"
+		retryerConnectNode(getRetryerOfResource(res), t[2])
+		delete(it.script, t[2])
+		_, s := states(res)
+		return "nodes=" + s
 	case "clock":
 		ms := vh.U(t[1])
 		if ms < it.clk.CurrentTimeMillis() {
